@@ -123,6 +123,9 @@ func (h *c14) check(s, partner subject) interface{} {
 		}
 		return nil
 	}
+	if h.verbose {
+		fmt.Printf("  %s %s: decoded %s\n", s.ser, s.name, dump(d))
+	}
 	for _, df := range structDiff(s.fresh(), d) {
 		h.violate(s, "roundtrip-differs", df.Path, "dec(enc(v)) differs from v at "+df.String())
 	}
